@@ -37,6 +37,7 @@ VARIABLES
     fanCur, fanStage,  \* the subscriber being served: "flush" (Send ok, Flush due), "fail" (error to report), "remove"
     repl,      \* "none" | "alive" | "dead" (after a panic it is not used anymore)
     stored,    \* messages the replayer holds (successful Puts), in Put order
+    rcap,      \* the replayer's capacity (0: large enough for everything)
     lastPut,   \* outcome of the Put of the current message: "" "ok" "err" "panic"
     repErr,    \* the current message's Put error has been handed to Publish
     rrem,      \* replay: the messages still to be sent
@@ -68,7 +69,7 @@ VARIABLES
     \* ---- verdict ghosts
     panicked, late
 
-loopVars == <<lpc, cur, reg, sentCur, fanCur, fanStage, repl, stored, lastPut, repErr, rrem, rfail, rsent, rendv>>
+loopVars == <<lpc, cur, reg, sentCur, fanCur, fanStage, repl, stored, rcap, lastPut, repErr, rrem, rfail, rsent, rendv>>
 subVars  == <<spc, stop, lastid, canc, dbuf, dclosed, errOcc, got, rgot, unfl, regAt, lidKnown, mustGet>>
 pubVars  == <<ppc, ptop, prep, pret, accepted>>
 downVars == <<kpc, kctx, att, okd, jclosed>>
@@ -77,7 +78,7 @@ vars == <<loopVars, subVars, pubVars, downVars, ghost>>
 
 Init ==
     /\ lpc = "init" /\ cur = None /\ reg = {} /\ sentCur = {} /\ fanCur = None /\ fanStage = ""
-    /\ repl = (IF WithReplayer THEN "alive" ELSE "none") /\ stored = <<>> /\ lastPut = "" /\ repErr = FALSE
+    /\ repl = (IF WithReplayer THEN "alive" ELSE "none") /\ stored = <<>> /\ rcap = 0 /\ lastPut = "" /\ repErr = FALSE
     /\ rrem = <<>> /\ rfail = FALSE /\ rsent = FALSE /\ rendv = ""
     /\ spc = [s \in Subs |-> "idle"] /\ stop = [s \in Subs |-> {}] /\ lastid = [s \in Subs |-> None]
     /\ canc = {} /\ dbuf = [s \in Subs |-> "none"] /\ dclosed = {} /\ errOcc = {}
@@ -92,6 +93,9 @@ Match(s, p) == stop[s] \cap ptop[p] # {}
 JDone == att # {}                          \* j.done is (being) closed: the hook fires before close()
 InSeq(x, sq) == \E i \in 1..Len(sq) : sq[i] = x
 IndexOf(x, sq) == IF InSeq(x, sq) THEN CHOOSE i \in 1..Len(sq) : sq[i] = x ELSE 0
+
+\* a bounded replayer keeps the last rcap messages
+Window(sq) == IF rcap > 0 /\ Len(sq) > rcap THEN SubSeq(sq, Len(sq) - rcap + 1, Len(sq)) ELSE sq
 
 \* what a resuming subscriber must be replayed: the stored messages after the presented one that match
 ExpectedReplay(s) ==
@@ -157,20 +161,20 @@ LoopSelect ==
     /\ (lpc = "fan" => \A s \in reg : Match(s, cur) => s \in sentCur)
     /\ unfl = {}
     /\ lpc' = "sel" /\ cur' = None /\ sentCur' = {}
-    /\ UNCHANGED <<reg, fanCur, fanStage, repl, stored, lastPut, repErr, rrem, rfail, rsent, rendv, subVars, pubVars, downVars, ghost>>
+    /\ UNCHANGED <<reg, fanCur, fanStage, repl, stored, rcap, lastPut, repErr, rrem, rfail, rsent, rendv, subVars, pubVars, downVars, ghost>>
 
 \* ---- case sub := <-j.subscription  (rendezvous with the first select of Subscribe)
 LoopSub(s) ==
     /\ lpc = "sel" /\ spc[s] = "s1"
     /\ lpc' = "sub" /\ cur' = s /\ spc' = [spc EXCEPT ![s] = "s2"]
     /\ rrem' = <<>> /\ rfail' = FALSE /\ rsent' = FALSE /\ rendv' = ""
-    /\ UNCHANGED <<reg, sentCur, fanCur, fanStage, repl, stored, lastPut, repErr, stop, lastid, canc, dbuf, dclosed, errOcc, got, rgot, unfl, regAt, lidKnown, mustGet, pubVars, downVars, ghost>>
+    /\ UNCHANGED <<reg, sentCur, fanCur, fanStage, repl, stored, rcap, lastPut, repErr, stop, lastid, canc, dbuf, dclosed, errOcc, got, rgot, unfl, regAt, lidKnown, mustGet, pubVars, downVars, ghost>>
 
 RBegin(s) ==
     /\ lpc = "sub" /\ cur = s /\ repl = "alive"
     /\ lpc' = "subrep" /\ rrem' = ExpectedReplay(s)
     /\ lidKnown' = [lidKnown EXCEPT ![s] = lastid[s] # None /\ InSeq(lastid[s], stored)]
-    /\ UNCHANGED <<cur, reg, sentCur, fanCur, fanStage, repl, stored, lastPut, repErr, rfail, rsent, rendv, spc, stop, lastid, canc, dbuf, dclosed, errOcc, got, rgot, unfl, regAt, mustGet, pubVars, downVars, ghost>>
+    /\ UNCHANGED <<cur, reg, sentCur, fanCur, fanStage, repl, stored, rcap, lastPut, repErr, rfail, rsent, rendv, spc, stop, lastid, canc, dbuf, dclosed, errOcc, got, rgot, unfl, regAt, mustGet, pubVars, downVars, ghost>>
 
 \* Send / Flush on the subscriber's MessageWriter, inside a replay or inside a fan-out
 NoteLate(s) == late' = (late \/ spc[s] = "ret")
@@ -189,7 +193,7 @@ Send(s, p, ok) ==
                    ELSE /\ fanStage' = "fail" /\ UNCHANGED <<got, unfl>>
           /\ UNCHANGED <<rgot, rrem, rfail, rsent>>
     /\ NoteLate(s)
-    /\ UNCHANGED <<lpc, cur, reg, repl, stored, lastPut, repErr, rendv, spc, stop, lastid, canc, dbuf, dclosed, errOcc, regAt, lidKnown, mustGet, pubVars, downVars, panicked>>
+    /\ UNCHANGED <<lpc, cur, reg, repl, stored, rcap, lastPut, repErr, rendv, spc, stop, lastid, canc, dbuf, dclosed, errOcc, regAt, lidKnown, mustGet, pubVars, downVars, panicked>>
 
 Flush(s, ok) ==
     /\ \/ /\ lpc = "subrep" /\ cur = s /\ ~rfail /\ rrem = <<>>   \* after everything was sent
@@ -200,7 +204,7 @@ Flush(s, ok) ==
           /\ UNCHANGED rfail
     /\ unfl' = IF ok THEN unfl \ {s} ELSE unfl
     /\ NoteLate(s)
-    /\ UNCHANGED <<lpc, cur, reg, sentCur, repl, stored, lastPut, repErr, rrem, rsent, rendv, spc, stop, lastid, canc, dbuf, dclosed, errOcc, got, rgot, regAt, lidKnown, mustGet, pubVars, downVars, panicked>>
+    /\ UNCHANGED <<lpc, cur, reg, sentCur, repl, stored, rcap, lastPut, repErr, rrem, rsent, rendv, spc, stop, lastid, canc, dbuf, dclosed, errOcc, got, rgot, regAt, lidKnown, mustGet, pubVars, downVars, panicked>>
 
 \* Replay returns: nil only after everything was sent and flushed; its error if a Send / Flush failed;
 \* a replayer may also fail on its own ("replayerr") or panic
@@ -214,7 +218,7 @@ REnd(s, v) ==
     /\ repl' = IF v = "panic" THEN "dead" ELSE repl
     \* a replayer that panics half-way may leave what it sent unflushed: no property obliges Joe to repair that
     /\ unfl' = IF v = "panic" THEN unfl \ {s} ELSE unfl
-    /\ UNCHANGED <<cur, reg, sentCur, fanCur, fanStage, stored, lastPut, repErr, rrem, rfail, rsent, spc, stop, lastid, canc, dbuf, dclosed, errOcc, got, rgot, regAt, lidKnown, mustGet, pubVars, downVars, ghost>>
+    /\ UNCHANGED <<cur, reg, sentCur, fanCur, fanStage, stored, rcap, lastPut, repErr, rrem, rfail, rsent, spc, stop, lastid, canc, dbuf, dclosed, errOcc, got, rgot, regAt, lidKnown, mustGet, pubVars, downVars, ghost>>
 
 \* the replay failed: the error goes into the subscriber's channel, which is closed; it is not registered
 LoopSubFail(s) ==
@@ -222,7 +226,7 @@ LoopSubFail(s) ==
     /\ dbuf' = [dbuf EXCEPT ![s] = "err"] /\ errOcc' = errOcc \cup {s} /\ unfl' = unfl \ {s}
     /\ CloseDone(s)
     /\ lpc' = "subdone"
-    /\ UNCHANGED <<cur, reg, sentCur, fanCur, fanStage, repl, stored, lastPut, repErr, rrem, rfail, rsent, rendv, spc, stop, lastid, canc, got, rgot, regAt, lidKnown, mustGet, pubVars, downVars, late>>
+    /\ UNCHANGED <<cur, reg, sentCur, fanCur, fanStage, repl, stored, rcap, lastPut, repErr, rrem, rfail, rsent, rendv, spc, stop, lastid, canc, got, rgot, regAt, lidKnown, mustGet, pubVars, downVars, late>>
 
 \* ... otherwise (no replayer, replay done, or replayer panicked) it is registered in the same loop iteration
 LoopRegister(s) ==
@@ -231,19 +235,20 @@ LoopRegister(s) ==
        \/ lpc = "subend" /\ rendv \in {"nil", "panic"}
     /\ reg' = reg \cup {s} /\ regAt' = [regAt EXCEPT ![s] = Len(accepted)]
     /\ lpc' = "subdone"
-    /\ UNCHANGED <<cur, sentCur, fanCur, fanStage, repl, stored, lastPut, repErr, rrem, rfail, rsent, rendv, spc, stop, lastid, canc, dbuf, dclosed, errOcc, got, rgot, unfl, lidKnown, mustGet, pubVars, downVars, ghost>>
+    /\ UNCHANGED <<cur, sentCur, fanCur, fanStage, repl, stored, rcap, lastPut, repErr, rrem, rfail, rsent, rendv, spc, stop, lastid, canc, dbuf, dclosed, errOcc, got, rgot, unfl, lidKnown, mustGet, pubVars, downVars, ghost>>
 
 \* ---- case msg := <-j.message  (rendezvous with Publish)
 LoopMsg(p) ==
     /\ lpc = "sel" /\ ppc[p] = "p1"
     /\ lpc' = "msg" /\ cur' = p /\ ppc' = [ppc EXCEPT ![p] = "pw"] /\ accepted' = Append(accepted, p)
     /\ lastPut' = "" /\ repErr' = FALSE /\ sentCur' = {}
-    /\ UNCHANGED <<reg, fanCur, fanStage, repl, stored, rrem, rfail, rsent, rendv, subVars, ptop, prep, pret, downVars, ghost>>
+    /\ UNCHANGED <<reg, fanCur, fanStage, repl, stored, rcap, rrem, rfail, rsent, rendv, subVars, ptop, prep, pret, downVars, ghost>>
 
 Put(p, v) ==
     /\ lpc = "msg" /\ cur = p /\ repl = "alive" /\ v \in {"ok", "err", "panic"}
     /\ lpc' = "msgput" /\ lastPut' = v
-    /\ stored' = IF v = "ok" THEN Append(stored, p) ELSE stored
+    /\ stored' = IF v = "ok" THEN Window(Append(stored, p)) ELSE stored
+    /\ rcap' = rcap
     /\ repl' = IF v = "panic" THEN "dead" ELSE repl
     /\ UNCHANGED <<cur, reg, sentCur, fanCur, fanStage, repErr, rrem, rfail, rsent, rendv, subVars, pubVars, downVars, ghost>>
 
@@ -252,7 +257,7 @@ ReplyErr(p) ==
     /\ lpc = "msgput" /\ cur = p /\ lastPut = "err" /\ ~repErr
     /\ repErr' = TRUE
     /\ prep' = [prep EXCEPT ![p] = "puterr"]     \* the channel is buffered: Publish may return from here on
-    /\ UNCHANGED <<lpc, cur, reg, sentCur, fanCur, fanStage, repl, stored, lastPut, rrem, rfail, rsent, rendv, subVars, ppc, ptop, pret, accepted, downVars, ghost>>
+    /\ UNCHANGED <<lpc, cur, reg, sentCur, fanCur, fanStage, repl, stored, rcap, lastPut, rrem, rfail, rsent, rendv, subVars, ppc, ptop, pret, accepted, downVars, ghost>>
 
 \* close(msg.replayerErr): Publish may return; the fan-out starts
 Reply(p) ==
@@ -261,14 +266,14 @@ Reply(p) ==
        \/ lpc = "msgput" /\ (lastPut = "err" => repErr)
     /\ prep' = [prep EXCEPT ![p] = IF @ = "no" THEN "nil" ELSE @]
     /\ lpc' = "fan"
-    /\ UNCHANGED <<cur, reg, sentCur, fanCur, fanStage, repl, stored, lastPut, repErr, rrem, rfail, rsent, rendv, subVars, ppc, ptop, pret, accepted, downVars, ghost>>
+    /\ UNCHANGED <<cur, reg, sentCur, fanCur, fanStage, repl, stored, rcap, lastPut, repErr, rrem, rfail, rsent, rendv, subVars, ppc, ptop, pret, accepted, downVars, ghost>>
 
 \* done <- err for a subscriber whose Send or Flush failed in the fan-out
 LoopFail(s) ==
     /\ lpc = "fan" /\ fanCur = s /\ fanStage = "fail"
     /\ dbuf' = [dbuf EXCEPT ![s] = "err"] /\ errOcc' = errOcc \cup {s} /\ unfl' = unfl \ {s}
     /\ fanStage' = "remove"
-    /\ UNCHANGED <<lpc, cur, reg, sentCur, fanCur, repl, stored, lastPut, repErr, rrem, rfail, rsent, rendv, spc, stop, lastid, canc, dclosed, got, rgot, regAt, lidKnown, mustGet, pubVars, downVars, ghost>>
+    /\ UNCHANGED <<lpc, cur, reg, sentCur, fanCur, repl, stored, rcap, lastPut, repErr, rrem, rfail, rsent, rendv, spc, stop, lastid, canc, dclosed, got, rgot, regAt, lidKnown, mustGet, pubVars, downVars, ghost>>
 
 \* removeSubscriber(sub): delete and close only what is registered
 LoopRemove(s, present) ==
@@ -278,24 +283,24 @@ LoopRemove(s, present) ==
        \/ lpc = "closing" /\ present /\ UNCHANGED <<lpc, fanCur, fanStage>>
     /\ reg' = reg \ {s}
     /\ IF present THEN CloseDone(s) ELSE UNCHANGED <<dclosed, panicked>>
-    /\ UNCHANGED <<cur, sentCur, repl, stored, lastPut, repErr, rrem, rfail, rsent, rendv, spc, stop, lastid, canc, dbuf, errOcc, got, rgot, unfl, regAt, lidKnown, mustGet, pubVars, downVars, late>>
+    /\ UNCHANGED <<cur, sentCur, repl, stored, rcap, lastPut, repErr, rrem, rfail, rsent, rendv, spc, stop, lastid, canc, dbuf, errOcc, got, rgot, unfl, regAt, lidKnown, mustGet, pubVars, downVars, late>>
 
 \* ---- case sub := <-j.unsubscription  (rendezvous with the third select of Subscribe)
 LoopUnsub(s) ==
     /\ lpc = "sel" /\ spc[s] = "s3"
     /\ lpc' = "unsub" /\ cur' = s /\ spc' = [spc EXCEPT ![s] = "s4"]
-    /\ UNCHANGED <<reg, sentCur, fanCur, fanStage, repl, stored, lastPut, repErr, rrem, rfail, rsent, rendv, stop, lastid, canc, dbuf, dclosed, errOcc, got, rgot, unfl, regAt, lidKnown, mustGet, pubVars, downVars, ghost>>
+    /\ UNCHANGED <<reg, sentCur, fanCur, fanStage, repl, stored, rcap, lastPut, repErr, rrem, rfail, rsent, rendv, stop, lastid, canc, dbuf, dclosed, errOcc, got, rgot, unfl, regAt, lidKnown, mustGet, pubVars, downVars, ghost>>
 
 \* ---- case <-j.done: return; deferred: closeSubscribers, close(j.closed)
 LoopDone ==
     /\ lpc = "sel" /\ JDone
     /\ lpc' = "closing"
-    /\ UNCHANGED <<cur, reg, sentCur, fanCur, fanStage, repl, stored, lastPut, repErr, rrem, rfail, rsent, rendv, subVars, pubVars, downVars, ghost>>
+    /\ UNCHANGED <<cur, reg, sentCur, fanCur, fanStage, repl, stored, rcap, lastPut, repErr, rrem, rfail, rsent, rendv, subVars, pubVars, downVars, ghost>>
 
 LoopExit ==
     /\ lpc = "closing" /\ reg = {}
     /\ lpc' = "dead" /\ jclosed' = TRUE
-    /\ UNCHANGED <<cur, reg, sentCur, fanCur, fanStage, repl, stored, lastPut, repErr, rrem, rfail, rsent, rendv, subVars, pubVars, kpc, kctx, att, okd, ghost>>
+    /\ UNCHANGED <<cur, reg, sentCur, fanCur, fanStage, repl, stored, rcap, lastPut, repErr, rrem, rfail, rsent, rendv, subVars, pubVars, kpc, kctx, att, okd, ghost>>
 
 -----------------------------------------------------------------------------
 (* Publish                                                                 *)
@@ -390,7 +395,7 @@ Flushed == lpc = "sel" => unfl = {}
 \* reordering at the boundary, whatever Publish calls run concurrently
 Resume ==
     \A s \in Subs :
-        (regAt[s] >= 0 /\ lidKnown[s]) =>
+        (regAt[s] >= 0 /\ lidKnown[s] /\ rcap = 0) =>
             LET all == SelectSeq(SubSeq(stored, IndexOf(lastid[s], stored) + 1, Len(stored)), LAMBDA p : Match(s, p))
             IN IsPrefix(rgot[s] \o got[s], all) \/ repl # "alive" \/ \E i \in 1..Len(accepted) : ~InSeq(accepted[i], stored)
 NoDuplicates == \A s \in Subs : LET d == rgot[s] \o got[s] IN \A i, j \in 1..Len(d) : i # j => d[i] # d[j]
